@@ -199,6 +199,44 @@ Theorem C04_priority_max :
 Proof. exact accepted_priority_is_max. Qed.
 Print Assumptions C04_priority_max.
 
+(* ---- the pre-images of the priority ------------------------------------------------ *)
+(* C04_priority_max: an accepted priority is the largest
+   Keccak256(output ++ min_be i) over exactly the seats i = 0..j.  The seat number
+   enters as big.Int.Bytes(): big-endian (its big-endian value is the seat),
+   minimal (nothing for seat 0, no leading zero byte otherwise) ... *)
+Theorem C04_seat_encoding_big_endian_minimal : forall x,
+  (0 <= x -> be_val (min_be x) = x) /\
+  min_be 0 = [] /\ (0 < x -> exists b l, min_be x = b :: l /\ 0 < b < 256).
+Proof. intro x. split; [exact (min_be_val x)|exact (min_be_minimal x)]. Qed.
+Print Assumptions C04_seat_encoding_big_endian_minimal.
+
+(* ... and injective: distinct seats give distinct pre-images under one VRF output *)
+Theorem C04_seat_preimages_distinct : forall hash i j, 0 <= i -> 0 <= j ->
+  be_bytes 32 hash ++ min_be i = be_bytes 32 hash ++ min_be j -> i = j.
+Proof. exact seat_preimage_inj. Qed.
+Print Assumptions C04_seat_preimages_distinct.
+
+(* ---- the gossip path: Server.verifyPriority ------------------------------------------- *)
+(* the proposal / priority message handlers accept a proposer priority exactly
+   when VrfVerifyPriority found it valid (code as it is, commit 14c9452) *)
+Theorem C04_gossip_priority : forall r,
+  server_verify_priority true r = true <-> r = PvResult true.
+Proof. exact server_priority_repaired. Qed.
+Print Assumptions C04_gossip_priority.
+
+(* record of the finding fixed by 14c9452: before it the verdict (false, nil) -
+   seat count right, priority not the maximum - was accepted ... *)
+Theorem C04_gossip_priority_unrepaired_refuted :
+  ~ (forall r, server_verify_priority false r = true -> r = PvResult true).
+Proof. exact server_priority_refuted. Qed.
+Print Assumptions C04_gossip_priority_unrepaired_refuted.
+
+(* ... and nothing else was *)
+Theorem C04_gossip_priority_unrepaired_holds_outside : forall r, r <> PvResult false ->
+  server_verify_priority false r = true -> r = PvResult true.
+Proof. exact server_priority_holds_outside. Qed.
+Print Assumptions C04_gossip_priority_unrepaired_holds_outside.
+
 (* ---- VRF uniqueness from the decoding of the proof ------------------------------ *)
 (* the only encodings of the VRF point ProofToHash accepts: 65 bytes
    "04 || X || Y" with X, Y below the field prime and (X,Y) on the curve *)
@@ -445,3 +483,10 @@ Proof.
   - split; [repeat constructor; unfold is_byte; lia|]. vm_compute. repeat split; discriminate || reflexivity.
 Qed.
 Print Assumptions C04_nonvacuous_vrf_decoding.
+
+(* seats whose number takes two and three bytes: 397 = 01 8d, 65536 = 01 00 00 *)
+Example C04_nonvacuous_seat_encoding :
+  min_be 255 = [255] /\ min_be 256 = [1; 0] /\ min_be 397 = [1; 141] /\ min_be 65536 = [1; 0; 0] /\
+  min_be 256 <> [0; 1].
+Proof. vm_compute. repeat split; reflexivity || discriminate. Qed.
+Print Assumptions C04_nonvacuous_seat_encoding.
